@@ -3,10 +3,16 @@
 //!   simcheck replay <file>
 //!   simcheck determinism --property Cxx [--n N]
 
+mod contract;
 mod engines;
 mod harness;
+mod model;
+mod modules;
+mod ops;
 mod prng;
+mod resolve;
 mod storage;
+mod world;
 
 use harness::*;
 
@@ -30,6 +36,7 @@ fn seed_from_env() -> u64 {
 macro_rules! dispatch_property {
     ($prop:expr, $f:ident, $($arg:expr),*) => {
         match $prop {
+            "C01" | "C02" | "C03" | "C04" | "C05" | "C08" | "C09" | "C10" | "C11" | "C12" | "C13" | "C17" => $f(&engines::chaingen::ChainSim, $($arg),*),
             "C06" => $f(&engines::kv06::Kv06, $($arg),*),
             "C07" => $f(&engines::pfx07::Pfx07, $($arg),*),
             _ => {
@@ -43,6 +50,7 @@ macro_rules! dispatch_property {
 macro_rules! dispatch_engine {
     ($name:expr, $f:ident, $($arg:expr),*) => {
         match $name {
+            "chainsim" => $f(&engines::chaingen::ChainSim, $($arg),*),
             "kvsim-overlay" => $f(&engines::kv06::Kv06, $($arg),*),
             "kvsim-prefix" => $f(&engines::pfx07::Pfx07, $($arg),*),
             _ => {
